@@ -17,7 +17,6 @@ import os
 import random
 import re
 import warnings
-from collections import deque
 from concurrent.futures import ThreadPoolExecutor
 
 from ..common import pmap, MachineryError
@@ -127,77 +126,6 @@ def _sweep_case(case):
 
 
 # ------------------------------------------------------------------------------------------------------------
-def fast_walks(g, max_len=400, radius=6):
-    """Edge-covering walks for large graphs (tours.covering_walks is quadratic there): a walk is the BFS-tree
-    path from the initial state to a node that still has uncovered out-edges, continued greedily through
-    uncovered edges (with a bounded local search when stuck)."""
-    init = g.init[0]
-    parent = {init: None}
-    order = [init]
-    dq = deque([init])
-    while dq:
-        u = dq.popleft()
-        for i, (_, v) in enumerate(g.out[u]):
-            if v not in parent:
-                parent[v] = (u, i)
-                order.append(v)
-                dq.append(v)
-    nxt = {n: 0 for n in g.out}          # edges of a node are covered in order
-    walks = []
-
-    def prefix(n):
-        p = []
-        while parent[n] is not None:
-            u, i = parent[n]
-            p.append((u, i))
-            n = u
-        return list(reversed(p))
-
-    def near(src):
-        seen = {src: None}
-        fr = [src]
-        for _ in range(radius):
-            nf = []
-            for u in fr:
-                for i, (_, v) in enumerate(g.out[u]):
-                    if v in seen:
-                        continue
-                    seen[v] = (u, i)
-                    if nxt[v] < len(g.out[v]):
-                        p = []
-                        x = v
-                        while seen[x] is not None:
-                            p.append(seen[x])
-                            x = seen[x][0]
-                        return list(reversed(p))
-                    nf.append(v)
-            fr = nf
-            if len(seen) > 3000:
-                break
-        return None
-
-    for start in order:
-        while nxt[start] < len(g.out[start]):
-            walk = [g.out[u][i] for u, i in prefix(start)]
-            cur = start
-            while len(walk) < max_len:
-                if nxt[cur] < len(g.out[cur]):
-                    e = g.out[cur][nxt[cur]]
-                    nxt[cur] += 1
-                    walk.append(e)
-                    cur = e[1]
-                else:
-                    p = near(cur)        # already covered edges leading to the nearest node with work left
-                    if p is None or len(walk) + len(p) >= max_len:
-                        break
-                    walk.extend(g.out[u][i] for u, i in p)
-                    cur = walk[-1][1]
-            walks.append((init, walk))
-    if any(nxt[n] < len(g.out[n]) for n in g.out):
-        raise MachineryError("fast_walks: edges left uncovered")
-    return walks
-
-
 _OBS = re.compile(r"obs = \[w_rdy \|-> (\w+), r_rdy \|-> (\w+), r_data \|-> (-?\d+), level \|-> -?\d+, "
                   r"r_level \|-> (-?\d+), w_level \|-> (-?\d+)\]")
 
@@ -209,8 +137,44 @@ def _model_obs(g, nid):
     return [int(m.group(1) == "TRUE"), int(m.group(2) == "TRUE"), int(m.group(3)), int(m.group(4)), int(m.group(5))]
 
 
+def _graph_job(job):
+    """Load one dumped model graph and return edge-covering walks as event lists with the model's outputs."""
+    _, dot, variant, d, distinct, generated = job
+    g = tours.load_dot(dot)
+    if g.n_edges != generated - 1 or len(g.out) != distinct:
+        raise MachineryError("%s: dot dump has %d nodes / %d edges, TLC reported %d / %d" % (
+            dot, len(g.out), g.n_edges, distinct, generated - 1))
+    walks = tours.covering_walks(g, max_len=400)
+    covered = {(s, lab, dst) for init, w in walks for s, (lab, dst) in zip([init] + [x[1] for x in w], w)}
+    n_distinct = len({(s, lab, dst) for s, es in g.out.items() for lab, dst in es})
+    if len(covered) != n_distinct:
+        raise MachineryError("%s: walks cover %d of %d edges" % (dot, len(covered), n_distinct))
+    obs = {}
+
+    def ob(n):
+        if n not in obs:
+            obs[n] = _model_obs(g, n)
+        return obs[n]
+    out = []
+    for init, w in walks:
+        out.append(([_label_event(lab) for lab, _ in w], [ob(init)] + [ob(dst) for _, dst in w[:-1]]))
+    return {"nodes": len(g.out), "edges": g.n_edges, "walks": out}
+
+
+def _mixed_job(job):
+    return _graph_job(job) if job[0] == "graph" else _random_job(job)
+
+
 # ------------------------------------------------------------------------------------------------------------
 def run(ctx):
+    ex = ThreadPoolExecutor(6)
+    try:
+        _run(ctx, ex)
+    finally:
+        ex.shutdown(wait=True, cancel_futures=True)
+
+
+def _run(ctx, ex):
     th = ctx.thorough
 
     # ---------------- mc: the designs refine the contract, exhaustively over clock interleavings -----------
@@ -245,7 +209,6 @@ def run(ctx):
         return ctx.tlc("FifoAsyncImpl", stage=stage, cfg_text=c, workers=workers, expect_violation=expect,
                        count=expect is None, args=("-coverage", "1") if expect is None else (), timeout=3000)
 
-    ex = ThreadPoolExecutor(6)
     mc_futures = [ex.submit(one, j) for j in jobs if j[0] != "mc/async-d2"]
     # the first run also prints the documented depth table; needed right away by the sweep
     r0 = one(jobs[0])
@@ -291,7 +254,7 @@ def run(ctx):
                           "%s is constructible (depth %s) but does not elaborate: %s" % (
                               what, res["depth"], "; ".join("%s raises %s: %s" % e for e in res["errors"])),
                           replay={"kind": "sweep", "case": list(case)})
-    if n_constructed < 40:
+    if n_constructed < 40 and not ctx.violations:
         raise MachineryError("constructor sweep is vacuous: only %d cases constructed" % n_constructed)
     ctx.cov["stages"]["sweep"] = {"cases": len(cases), "constructed": n_constructed}
     _elab_cache = {}
@@ -304,58 +267,27 @@ def run(ctx):
             _elab_cache[key] = r["constructed"] and not any(e[0] == "Simulator" for e in r["errors"])
         return _elab_cache[key]
 
-    # ---------------- tours: every edge of the model's graph on the real FIFO -------------------------------
+    # ---------------- tours (spec -> code) and random clock-ratio walks (code -> spec) ------------------------
+    from .. import fifo_drive
     traces, meta = [], []
-    agree = {"steps": 0, "mismatches": 0, "first": None}
-    tour_specs = [("async", 2, "{0, 1}", False)]
-    tour_specs.append(("asyncbuf", 3, "{0, 1}" if th else "{0}", True))
+    # (variant, depth, data): depth 2 with data {0,1}; the larger graphs with one data value (every control
+    # state and edge; data paths are covered by depth 2 and by the random walks with wide data)
+    tour_specs = [("async", 2, "{0, 1}"), ("asyncbuf", 3, "{0}")]
     if th:
-        tour_specs.append(("async", 4, "{0}", True))
-    tour_jobs, tour_expect = [], []
-    for variant, d, data, fast in tour_specs:
+        tour_specs.append(("async", 4, "{0}"))
+
+    def dump(spec):
+        variant, d, data = spec
         stage = "tours/graph-%s-d%d" % (variant, d)
         dot = os.path.join(ctx.tmp, "g_%s_%d" % (variant, d))
-        r = ctx.tlc("FifoAsyncImpl", stage=stage, count=False, workers=6, cfg_text=cfg(variant, d, data=data),
+        r = ctx.tlc("FifoAsyncImpl", stage=stage, count=False, workers=4, cfg_text=cfg(variant, d, data=data),
                     args=("-dump", "dot,actionlabels", dot))
-        g = tours.load_dot(dot + ".dot")
-        os.unlink(dot + ".dot")
-        if g.n_edges != r.generated - 1 or len(g.out) != r.distinct:
-            raise MachineryError("%s: dot dump has %d nodes / %d edges, TLC reported %d / %d" % (
-                stage, len(g.out), g.n_edges, r.distinct, r.generated - 1))
-        walks = fast_walks(g) if fast else tours.covering_walks(g, max_len=400)
-        covered = {(s, lab, dst) for init, w in walks for s, (lab, dst) in zip([init] + [x[1] for x in w], w)}
-        n_distinct = len({(s, lab, dst) for s, es in g.out.items() for lab, dst in es})
-        if len(covered) != n_distinct:
-            raise MachineryError("%s: walks cover %d of %d edges" % (stage, len(covered), n_distinct))
-        ctx.cov["stages"][stage].update({"graph_nodes": len(g.out), "graph_edges": g.n_edges, "walks": len(walks),
-                                         "walk_steps": sum(len(w) for _, w in walks), "data": data})
-        for init, w in walks:
-            events = [_label_event(lab) for lab, _ in w]
-            tour_jobs.append((variant, 1, d, events))
-            tour_expect.append([_model_obs(g, init)] + [_model_obs(g, dst) for _, dst in w[:-1]])
-        del g
-    for job, exp, (steps, eff) in zip(tour_jobs, tour_expect, pmap(_tour_job, tour_jobs, chunksize=8)):
-        if eff != job[2]:
-            raise MachineryError("tour: %s depth %d became %d" % (job[0], job[2], eff))
-        traces.append({"variant": job[0], "depth": eff, "k": K_LIVE, "steps": steps})
-        meta.append({"class": job[0], "width": 1, "depth": job[2], "driver": "tour", "events": job[3]})
-        ctx.case(("tour", job[0], job[2], hash(tuple(job[3]))), nontrivial=len(steps) > 3)
-        for i, (s, e) in enumerate(zip(steps, exp)):      # model vs code: coverage note only
-            agree["steps"] += 1
-            if [s[5], s[6], s[7], s[9], s[10]] != e:
-                agree["mismatches"] += 1
-                if agree["first"] is None:
-                    agree["first"] = {"class": job[0], "depth": job[2], "step": i, "code": s, "model": e}
-    ctx.cov["model_code_agreement"] = agree
-    if agree["mismatches"]:
-        ctx.notes.append("FifoAsyncImpl and the code disagree on %d of %d tour steps (coverage note, not a verdict): %r"
-                         % (agree["mismatches"], agree["steps"], agree["first"]))
-    tour_jobs = tour_expect = None
+        return ("graph", dot + ".dot", variant, d, r.distinct, r.generated)
+    with ThreadPoolExecutor(3) as ex2:
+        gjobs = list(ex2.map(dump, tour_specs))
 
-    # ---------------- random clock-ratio walks on larger parameters -----------------------------------------
-    from .. import fifo_drive
     rjobs = []
-    n_events = 1500 if th else 400
+    n_events = 1000 if th else 400
     depth_sets = {"async": [0, 1, 2, 4, 8, 16, 32] if th else [0, 1, 2, 4, 8, 16],
                   "asyncbuf": [0, 2, 3, 5, 9, 17, 33] if th else [0, 2, 3, 5, 9, 17]}
     widths = [0, 1, 3, 8]
@@ -375,10 +307,42 @@ def run(ctx):
                     k = widths.index(width)
                     combos = [c for i, c in enumerate(combos) if i % len(widths) == k]
                 for ratio, mode in combos:
-                    for _ in range(3 if th else 1):
+                    for _ in range(2 if th else 1):
                         rjobs.append((variant, width, depth, n_events, ctx.rng.getrandbits(48), ratio, mode))
+    mixed = pmap(_mixed_job, gjobs + rjobs)
+    g_results, r_results = mixed[:len(gjobs)], mixed[len(gjobs):]
+
+    agree = {"steps": 0, "mismatches": 0, "first": None}
+    tour_jobs, tour_expect = [], []
+    for spec, gj, gr in zip(tour_specs, gjobs, g_results):
+        os.unlink(gj[1])
+        variant, d, data = spec
+        ctx.cov["stages"]["tours/graph-%s-d%d" % (variant, d)].update({
+            "graph_nodes": gr["nodes"], "graph_edges": gr["edges"], "walks": len(gr["walks"]),
+            "walk_steps": sum(len(e) for e, _ in gr["walks"]), "data": data})
+        for width in ((1, 3) if th else (1,)):
+            for events, exp in gr["walks"]:
+                tour_jobs.append((variant, width, d, events))
+                tour_expect.append(exp)
+    for job, exp, (steps, eff) in zip(tour_jobs, tour_expect, pmap(_tour_job, tour_jobs, chunksize=4)):
+        if eff != job[2] and not ctx.violations:     # (a wrong rounding is the sweep's finding, not ours)
+            raise MachineryError("tour: %s depth %d became %d" % (job[0], job[2], eff))
+        traces.append({"variant": job[0], "depth": eff, "k": K_LIVE, "steps": steps})
+        meta.append({"class": job[0], "width": job[1], "depth": job[2], "driver": "tour", "events": job[3]})
+        ctx.case(("tour", job[0], job[1], job[2], hash(tuple(job[3]))), nontrivial=len(steps) > 3)
+        for i, (s, e) in enumerate(zip(steps, exp)):      # model vs code: coverage note only
+            agree["steps"] += 1
+            if [s[5], s[6], s[7], s[9], s[10]] != e:
+                agree["mismatches"] += 1
+                if agree["first"] is None:
+                    agree["first"] = {"class": job[0], "depth": job[2], "step": i, "code": s, "model": e}
+    ctx.cov["model_code_agreement"] = agree
+    if agree["mismatches"]:
+        ctx.notes.append("FifoAsyncImpl and the code disagree on %d of %d tour steps (coverage note, not a verdict): %r"
+                         % (agree["mismatches"], agree["steps"], agree["first"]))
+    tour_jobs = tour_expect = g_results = mixed = None
+
     live_total = 0
-    r_results = pmap(_random_job, rjobs, chunksize=4)
     for job, (steps, eff, ratio, mode) in zip(rjobs, r_results):
         traces.append({"variant": job[0], "depth": eff, "k": K_LIVE, "steps": steps})
         meta.append({"class": job[0], "width": job[1], "depth": job[2], "driver": "random", "seed": job[4],
@@ -391,7 +355,6 @@ def run(ctx):
 
     for f in mc_futures:          # model checking ran in the background meanwhile
         f.result()
-    ex.shutdown()
     for j in jobs:
         if j[2] is None:
             st = ctx.cov["stages"][j[0]]
@@ -400,7 +363,7 @@ def run(ctx):
                 if not acts.get(a):
                     raise MachineryError("vacuous model run %s: action %s never taken (%r)" % (j[0], a, acts))
 
-    verdicts = tracecheck.validate(ctx, "FifoTrace", traces, "async-fifo", batch_size=1500 if th else 4000)
+    verdicts = tracecheck.validate(ctx, "FifoTrace", traces, "async-fifo", batch_size=800 if th else 4000)
     for v, m, t in zip(verdicts, meta, traces):
         if v[0] == "REJ":
             step, clause = v[1], v[2]
@@ -431,32 +394,36 @@ def run(ctx):
                  if v[0] == "ACC" and t["depth"] >= 2 and m["width"] >= 1 and int(v[2]) > 0
                  and any(s[6] for s in t["steps"]) and any(s[5] == 0 for s in t["steps"])), None)
     if good is None:
-        raise MachineryError("binding demo: no accepted non-trivial trace to corrupt")
-    bad1 = {**good, "steps": [list(s) for s in good["steps"]]}
-    for s in bad1["steps"]:                            # a recorder that flips delivered data
-        if s[6] == 1:
-            s[7] ^= 1
-    bad2 = {**good, "steps": [list(s) for s in good["steps"]]}
-    for s in bad2["steps"]:                            # a queue that always claims to have room
-        s[5] = 1
-    bad3 = {**good, "steps": [list(s) for s in good["steps"]]}
-    for s in bad3["steps"][-(K_LIVE * 3):]:            # entries never become readable after writing stops
-        s[6] = 0
-    bad4 = {**good, "steps": [list(s) for s in good["steps"]]}
-    bad4["steps"][len(bad4["steps"]) // 2][9] = good["depth"] + 1      # r_level out of range
-    vs = tracecheck.validate(ctx, "FifoTrace", [bad1, bad2, bad3, bad4], "binding-demo", count_states=False)
-    ctx.cov["traces_validated_against_impl"] -= 4
-    want = ["r_data_not_oldest", None, None, "r_level_out_of_range"]
-    for v, w in zip(vs, want):
-        if v[0] != "REJ" or (w is not None and v[2] != w):
-            raise MachineryError("binding demo: corrupted traces were not rejected as expected: %r" % (vs,))
-    ctx.cov["stages"]["binding-demo/validate"]["corrupted_rejected"] = [list(map(str, v)) for v in vs]
+        # nothing suitable was accepted: only legitimate if the run is reporting rejected traces anyway
+        if not any(v[0] == "REJ" for v in verdicts):
+            raise MachineryError("binding demo: no accepted non-trivial trace to corrupt")
+        ctx.notes.append("binding demo skipped: no accepted non-trivial trace (violations reported)")
+    else:
+        bad1 = {**good, "steps": [list(s) for s in good["steps"]]}
+        for s in bad1["steps"]:                            # a recorder that flips delivered data
+            if s[6] == 1:
+                s[7] ^= 1
+        bad2 = {**good, "steps": [list(s) for s in good["steps"]]}
+        for s in bad2["steps"]:                            # a queue that always claims to have room
+            s[5] = 1
+        bad3 = {**good, "steps": [list(s) for s in good["steps"]]}
+        for s in bad3["steps"][-(K_LIVE * 3):]:            # entries never become readable after writing stops
+            s[6] = 0
+        bad4 = {**good, "steps": [list(s) for s in good["steps"]]}
+        bad4["steps"][len(bad4["steps"]) // 2][9] = good["depth"] + 1      # r_level out of range
+        vs = tracecheck.validate(ctx, "FifoTrace", [bad1, bad2, bad3, bad4], "binding-demo", count_states=False)
+        ctx.cov["traces_validated_against_impl"] -= 4
+        want = ["r_data_not_oldest", None, None, "r_level_out_of_range"]
+        for v, w in zip(vs, want):
+            if v[0] != "REJ" or (w is not None and v[2] != w):
+                raise MachineryError("binding demo: corrupted traces were not rejected as expected: %r" % (vs,))
+        ctx.cov["stages"]["binding-demo/validate"]["corrupted_rejected"] = [list(map(str, v)) for v in vs]
 
     ctx.cov["exhaustive"] = False
     ctx.cov["rule"] = ("cases = constructor sweep entries + executions of the real AsyncFIFO/AsyncFIFOBuffered (tour walks "
                        "covering every edge of the FifoAsyncImpl graph: %s; seeded clock-ratio walks); non-trivial = the "
                        "walk fills the queue (w_rdy low) and delivers data, or a tour with >3 events" % (
-                           ", ".join("%s depth %d data %s" % (v, d, da) for v, d, da, _ in tour_specs)))
+                           ", ".join("%s depth %d data %s" % (v, d, da) for v, d, da in tour_specs)))
     ctx.assume("r_data is compared only while r_rdy is asserted; `level` is not part of the asynchronous interfaces")
     ctx.assume("TLC model checking uses data values {0,1} (data independence) and depths <= %d; larger depths by random "
                "walks only" % (5 if th else 4))
